@@ -3,6 +3,7 @@ package checks
 import (
 	"encoding/json"
 	"fmt"
+	"hash/fnv"
 	"math"
 	"sort"
 	"strings"
@@ -67,6 +68,11 @@ type c08Op struct {
 	W     int            `json:"workload,omitempty"` // realloc/release: index into the sorted live list of the state
 	WRes  map[string]any `json:"workload_resource,omitempty"`
 	Keep  int            `json:"kept,omitempty"` // rollback-alloc: instances of the last alloc that stay (the rest is rolled back)
+	// alloc/realloc: the workload resources the operation produced in this history. The CPU
+	// planner iterates over a map of NUMA nodes, so the same operation on the same state can
+	// place a workload on either NUMA node; a replay repeats the operation until it produces
+	// this result again.
+	Result []map[string]any `json:"result,omitempty"`
 }
 
 type c08W struct {
@@ -106,8 +112,53 @@ func (s *c08State) key() string {
 func c08SortLive(l []c08W) { sort.SliceStable(l, func(i, j int) bool { return l[i].key < l[j].key }) }
 
 type c08Env struct {
-	c   *vcore.Ctx
-	env *world.PluginEnv
+	c      *vcore.Ctx
+	env    *world.PluginEnv
+	nondet map[string]bool // nodes on which the same alloc was seen to give different placements
+	reps   int
+}
+
+// c08Owner partitions by content (not by enumeration index): the planner's map iteration makes
+// the enumeration order differ between workers.
+func c08Owner(c *vcore.Ctx, s string) bool {
+	if c.NShards <= 1 {
+		return true
+	}
+	h := fnv.New32a()
+	h.Write([]byte(s))
+	return int(h.Sum32()%uint32(c.NShards)) == c.Shard
+}
+
+func c08ResultKey(tr *c08Trans) string {
+	switch {
+	case tr.panicky != "":
+		return "panic"
+	case !tr.ok:
+		return "refused"
+	}
+	l := append([]c08W{}, tr.live...)
+	c08SortLive(l)
+	var sb strings.Builder
+	for _, w := range l {
+		sb.WriteString(w.key)
+		sb.WriteString("\n")
+	}
+	return sb.String()
+}
+
+func (tr *c08Trans) result() []map[string]any {
+	var out []map[string]any
+	switch tr.op.Op {
+	case "alloc":
+		for _, w := range tr.fresh {
+			out = append(out, w.Res)
+		}
+	case "realloc":
+		if tr.ok {
+			out = append(out, tr.live[tr.op.W].Res)
+		}
+	}
+	return out
 }
 
 func c08Init(env *world.PluginEnv) {
@@ -332,14 +383,40 @@ type c08Case struct {
 // step applies op to st (restoring st first), checks the oracle, and explores the rollback of a
 // successful alloc/realloc as a further transition. Every reached, consistent state is passed to
 // visit together with its history. report=false executes without counting or reporting (used for
-// the prefix levels every worker shares).
+// the prefix levels every worker shares). On a node where placements are not deterministic the
+// operation is repeated and every distinct result is a transition of its own.
 func (e *c08Env) step(st *c08State, op c08Op, report bool, visit func(*c08State)) {
+	reps := 1
+	if e.nondet[op.Node] && (op.Op == "alloc" || op.Op == "realloc") {
+		reps = e.reps
+	}
+	seen := map[string]bool{}
+	for i := 0; i < reps; i++ {
+		e.env.Srv.Restore(st.snap)
+		tr := e.apply(st, op)
+		if report {
+			e.c.Eval()
+		}
+		k := c08ResultKey(&tr)
+		if seen[k] {
+			continue
+		}
+		seen[k] = true
+		if len(seen) == 2 && report {
+			e.c.Outcome(op.Op + ":second-placement")
+		}
+		e.stepOnce(st, op, tr, report, visit)
+		if len(seen) >= 2 {
+			break // one unordered choice between two NUMA nodes: at most two results
+		}
+	}
+}
+
+func (e *c08Env) stepOnce(st *c08State, op c08Op, tr c08Trans, report bool, visit func(*c08State)) {
 	c := e.c
-	e.env.Srv.Restore(st.snap)
+	op.Result = tr.result()
 	hist := append(append(make([]c08Op, 0, len(st.hist)+2), st.hist...), op)
-	tr := e.apply(st, op)
 	if report {
-		c.Eval()
 		c.Transition()
 	}
 	if tr.panicky != "" {
@@ -458,7 +535,7 @@ func c08Ops(st *c08State) []c08Op {
 }
 
 func c08Check(c *vcore.Ctx) {
-	c.SetRule("breadth-first search from two empty nodes (plain: 4 cores x 100 pieces, memory 1000; numa: the same with cores 0,1 on NUMA node 0 and 2,3 on node 1, NUMA memory 500/500) over Alloc(node, count 1|2, 6 requests), Realloc(any live workload, 7 deltas: grow, shrink, bind, unbind, keep-bind memory up/down, bind+grow), release(any live workload), each through the real cobalt manager as calcium calls it; every successful Alloc/Realloc is additionally followed by its rollback (RollbackAlloc of all or of the not-yet-deployed instances, RollbackRealloc of the delta) as a further transition that does not count towards the depth; " +
+	c.SetRule("breadth-first search from two empty nodes (plain: 4 cores x 100 pieces, memory 1000; numa: the same with cores 0,1 on NUMA node 0 and 2,3 on node 1, NUMA memory 500/500) over Alloc(node, count 1|2, 6 requests), Realloc(any live workload, 7 deltas: grow, shrink, bind, unbind, keep-bind memory up/down, bind+grow), release(any live workload), each through the real cobalt manager as calcium calls it; an operation whose placement is not deterministic (see assumptions) contributes one transition per distinct result; every successful Alloc/Realloc is additionally followed by its rollback (RollbackAlloc of all or of the not-yet-deployed instances, RollbackRealloc of the delta) as a further transition that does not count towards the depth; " +
 		"successor = restore of the parent's etcd snapshot + one real operation; de-duplicated per worker on (stored node records, sorted multiset of live workload resources with their node); states behind a violated transition are not expanded; non-trivial = a reached state with at least one live workload (distinct by canonical state)")
 	e := &c08Env{c: c, env: world.NewPluginEnv(100, -1)}
 	defer e.env.Close()
@@ -481,34 +558,36 @@ func c08Check(c *vcore.Ctx) {
 	c.Bound("depth_counts", "alloc, realloc and release operations; a rollback directly follows the operation it rolls back and is not counted")
 	c.Bound("requests", c08Requests)
 	c.Bound("realloc_deltas", c08Deltas)
+	e.reps = 20
+	e.probe(root)
+	c.Bound("placement_repetitions", e.reps)
+	c.Assume(fmt.Sprintf("the CPU planner ranges over a Go map of NUMA nodes (schedule.GetCPUPlans), so on a NUMA node the same Alloc/Realloc can place a workload on either NUMA node; on such nodes (probed at start: %v) every Alloc/Realloc is repeated up to %d times or until 2 distinct results were seen (2 NUMA nodes = 2 iteration orders) and each distinct result is explored; a second placement that never showed up in the repetitions is not explored", vcore.SortedKeys(e.nondet), e.reps))
 	const split = 2
 	seen := map[string]bool{root.key(): true}
-	if c.Mine(0) {
+	if c08Owner(c, root.key()) {
 		c.State()
 	}
 	frontier := []*c08State{root}
-	var tIdx, sIdx int64
 	for d := 0; d < depth; d++ {
 		var next []*c08State
 		lastLevel := d+1 == depth
 		for _, st := range frontier {
-			for _, op := range c08Ops(st) {
+			sk := st.key()
+			for oi, op := range c08Ops(st) {
 				if c.Expired() {
 					c.CapHit(fmt.Sprintf("budget reached at depth %d", d))
 					return
 				}
-				tIdx++
-				owned := d >= split || c.Mine(tIdx)
+				owned := d >= split || c08Owner(c, fmt.Sprintf("%s#%d", sk, oi))
 				e.step(st, op, owned, func(child *c08State) {
 					k := child.key()
 					if seen[k] {
 						return
 					}
 					seen[k] = true
-					sIdx++
-					mine := c.Mine(sIdx)
+					mine := c08Owner(c, k)
 					if d+1 == split && !mine {
-						return // another worker explores below this state
+						return // the worker owning this state explores below it
 					}
 					if d+1 > split || mine {
 						c.State()
@@ -525,8 +604,32 @@ func c08Check(c *vcore.Ctx) {
 				})
 			}
 		}
+		sort.Slice(next, func(i, j int) bool { return next[i].key() < next[j].key() })
 		frontier = next
 	}
+}
+
+// probe finds the nodes on which an allocation on the empty node does not always give the same
+// placement.
+func (e *c08Env) probe(root *c08State) {
+	e.nondet = map[string]bool{}
+	for _, n := range c08Nodes {
+		for i := range c08Requests {
+			op := c08Op{Op: "alloc", Node: n, Count: 1, Req: &c08Requests[i]}
+			first := ""
+			for r := 0; r < 40 && !e.nondet[n]; r++ {
+				e.env.Srv.Restore(root.snap)
+				tr := e.apply(root, op)
+				k := c08ResultKey(&tr)
+				if r == 0 {
+					first = k
+				} else if k != first {
+					e.nondet[n] = true
+				}
+			}
+		}
+	}
+	e.env.Srv.Restore(root.snap)
 }
 
 // c08Replay runs one history from the empty world, checking the oracle after every operation.
@@ -551,6 +654,16 @@ func c08Replay(e *c08Env, root *c08State, hist []c08Op) {
 				op.Node = st.live[op.W].Node
 			}
 			tr := e.apply(st, op)
+			if len(op.Result) > 0 {
+				want := vcore.JSON(op.Result)
+				for try := 0; try < 200 && vcore.JSON(tr.result()) != want; try++ {
+					e.env.Srv.Restore(st.snap)
+					tr = e.apply(st, op)
+				}
+				if vcore.JSON(tr.result()) != want {
+					c.Note("replay: step %d never produced the recorded result %s (got %s)", i, want, vcore.JSON(tr.result()))
+				}
+			}
 			if tr.panicky != "" {
 				e.violate(h, "panic", "operation panicked: "+tr.panicky)
 				return
